@@ -65,6 +65,10 @@ func c10Datasets() []*kit.Dataset {
 			Peers:  kit.StrSet{Present: i%2 == 0, Elems: []string{"p1", "p4"}},
 			Tags:   map[string]kit.Val{"k": []kit.Val{kit.SV("a"), kit.IV(3), kit.FV(2.5), kit.BV(true), kit.TV(kit.UTime[0])}[i], "n": kit.IV(int64(i)), "s": kit.SV("Bob")},
 		}
+		if i%2 == 1 {
+			p.Tags["n"] = kit.I32V(int64(i)) // a number stored as a 32-bit integer
+			p.SubTags = map[string]kit.Val{"k": kit.I32V(7), "n": kit.FV(0.5)}
+		}
 		if i == 4 {
 			p.F["sa"], p.F["ia"], p.F["fa"], p.F["ba"], p.F["ta"] = kit.NullV(), kit.NullV(), kit.NullV(), kit.NullV(), kit.NullV()
 		}
@@ -506,6 +510,24 @@ func exhaustiveC10(maxLen int) func(yield func(c c10Case) bool) {
 		}
 		if !rec(nil, maxLen) {
 			return
+		}
+		// filters that mention many distinct symbols (nested in parentheses, which keeps the parser fast) before or
+		// after a set function, a dotted path or a sub-query
+		for _, n := range []int{33, 40, 70} {
+			for _, tail := range []string{`anyOf(places.name) = "a"`, `count(places.people.sa) > 0`, `isEmpty(roles)`, `boss.sa = "a"`,
+				`not isEmpty(from places where name = "x")`, `allOf(peers.roles) != "a"`} {
+				var b strings.Builder
+				for i := 0; i < n; i++ {
+					fmt.Fprintf(&b, "(tags.k%c%c = %d or ", 'a'+i/26, 'a'+i%26, i)
+				}
+				text := b.String() + tail + strings.Repeat(")", n)
+				if !yield(c10Case{Kind: "many-symbols", Text: text}) {
+					return
+				}
+				if !yield(c10Case{Kind: "many-symbols", Text: tail + " and " + b.String() + "false" + strings.Repeat(")", n)}) {
+					return
+				}
+			}
 		}
 		// paging matrix: every predicate x sort x skip x limit boundary combination is evaluated over every dataset
 		for _, pred := range []string{"true", "false", `sa = "a"`, "ia > 1", "sa = null", "isEmpty(roles)", `anyOf(roles) = "a"`} {
